@@ -153,6 +153,519 @@ fn pred_after(s: &str, prefix: &str) -> Option<String> {
     if name.chars().all(|c| c.is_ascii_alphanumeric() || c == '_') { Some(name.to_string()) } else { None }
 }
 
+/// What one iteration of `ScopeGraph::resolve_name` consults, in source order:
+/// 0 = the scope's declarations (`declarations.get`), 1 = the `recurse` gate,
+/// 2 = the scope's imports (`.imports.get`), 3 = the parent scope. Calls of other
+/// methods of `ScopeGraph` on `self` are followed (a helper that looks a name up
+/// in one scope is part of the iteration).
+struct Consults<'f> {
+    file: &'f syn::File,
+    depth: usize,
+    out: Vec<u8>,
+}
+impl<'ast> syn::visit::Visit<'ast> for Consults<'_> {
+    fn visit_expr_method_call(&mut self, m: &'ast syn::ExprMethodCall) {
+        self.visit_expr(&m.receiver);
+        let recv = norm(&m.receiver);
+        let name = m.method.to_string();
+        if name == "get" && recv.ends_with("declarations") {
+            self.out.push(0);
+        } else if name == "get" && recv.ends_with(".imports") {
+            self.out.push(2);
+        } else if name == "parent" && recv == "self" {
+            self.out.push(3);
+        } else if recv == "self" && self.depth < 3 && name != "resolve_name" {
+            if let Ok(f) = find::func(self.file, &name, Some("ScopeGraph")) {
+                let mut inner = Consults { file: self.file, depth: self.depth + 1, out: vec![] };
+                inner.visit_block(&f.block);
+                self.out.extend(inner.out);
+            }
+        }
+        for a in &m.args {
+            self.visit_expr(a);
+        }
+    }
+    fn visit_expr_unary(&mut self, u: &'ast syn::ExprUnary) {
+        if matches!(u.op, syn::UnOp::Not(_)) && norm(&u.expr) == "recurse" {
+            self.out.push(1);
+        }
+        syn::visit::visit_expr_unary(self, u);
+    }
+}
+
+/// the values given to the variable `recurse`, in source order
+struct RecurseValues(Vec<String>);
+impl<'ast> syn::visit::Visit<'ast> for RecurseValues {
+    fn visit_local(&mut self, l: &'ast syn::Local) {
+        if norm(&l.pat).trim_start_matches("mut") == "recurse" {
+            if let Some(init) = &l.init {
+                self.0.push(norm(&init.expr));
+            }
+        }
+        syn::visit::visit_local(self, l);
+    }
+    fn visit_expr_assign(&mut self, a: &'ast syn::ExprAssign) {
+        if norm(&a.left) == "recurse" {
+            self.0.push(norm(&a.right));
+        }
+        syn::visit::visit_expr_assign(self, a);
+    }
+}
+
+/// A canonical form of a function body, so that behaviour-preserving spellings extract to the
+/// same text / the same call skeleton:
+///  * an immutable `let x = <init>;` is inlined at its uses (`x.clone()` counts as a use) when
+///    `<init>` is a VALUE expression (paths, literals, fields, constructor applications,
+///    comparisons and logic, `&`, `.len()` / `.is_empty()` / `.clone()`), or when `x` is used
+///    exactly once, in the statement that follows, and `<init>` is straight-line code without a
+///    call on `self`, `?`, macro, closure or block;
+///  * `!` is pushed inwards over `&&`, `||`, `!`, `==`, `!=` (De Morgan);
+///  * the operands of `==` / `!=` are ordered by their text.
+/// Nothing here is executed: two functions with the same canonical form differ at most in the
+/// order in which side-effect-free subexpressions are evaluated.
+pub mod canon {
+    use quote::ToTokens;
+    use syn::visit::Visit;
+    use syn::visit_mut::VisitMut;
+    use syn::{BinOp, Block, Expr, Pat, Stmt, UnOp};
+
+    fn txt(t: &impl ToTokens) -> String {
+        t.to_token_stream().to_string().replace([' ', '\n'], "")
+    }
+
+    fn simple_let(s: &Stmt) -> Option<(syn::Ident, Expr)> {
+        let Stmt::Local(l) = s else { return None };
+        if !l.attrs.is_empty() {
+            return None;
+        }
+        let init = l.init.as_ref()?;
+        if init.diverge.is_some() {
+            return None;
+        }
+        let Pat::Ident(pi) = &l.pat else { return None };
+        if pi.by_ref.is_some() || pi.mutability.is_some() || pi.subpat.is_some() {
+            return None;
+        }
+        Some((pi.ident.clone(), (*init.expr).clone()))
+    }
+
+    /// variables of the function that may change after they were bound: assigned, borrowed
+    /// mutably, declared `mut`, or the receiver of a method that is not a known observer
+    const OBSERVERS: &[&str] = &[
+        "len", "is_empty", "iter", "clone", "get", "contains", "first", "last", "as_slice", "to_vec", "zip", "as_ref", "to_string", "as_str",
+    ];
+    #[derive(Default)]
+    struct Mutated(Vec<String>);
+    impl Mutated {
+        fn root(e: &Expr) -> Option<String> {
+            match e {
+                Expr::Path(p) => p.path.get_ident().map(|i| i.to_string()),
+                Expr::Field(f) => Self::root(&f.base),
+                Expr::Index(i) => Self::root(&i.expr),
+                Expr::Paren(p) => Self::root(&p.expr),
+                Expr::Unary(u) => Self::root(&u.expr),
+                Expr::Reference(r) => Self::root(&r.expr),
+                Expr::MethodCall(m) => Self::root(&m.receiver),
+                _ => None,
+            }
+        }
+        fn add(&mut self, e: &Expr) {
+            if let Some(r) = Self::root(e) {
+                if !self.0.contains(&r) {
+                    self.0.push(r);
+                }
+            }
+        }
+    }
+    impl<'ast> Visit<'ast> for Mutated {
+        fn visit_expr(&mut self, e: &'ast Expr) {
+            match e {
+                Expr::Assign(a) => self.add(&a.left),
+                Expr::Binary(b)
+                    if matches!(
+                        b.op,
+                        BinOp::AddAssign(_) | BinOp::SubAssign(_) | BinOp::MulAssign(_) | BinOp::DivAssign(_) | BinOp::RemAssign(_)
+                            | BinOp::BitOrAssign(_) | BinOp::BitAndAssign(_) | BinOp::BitXorAssign(_) | BinOp::ShlAssign(_) | BinOp::ShrAssign(_)
+                    ) =>
+                {
+                    self.add(&b.left)
+                }
+                Expr::Reference(r) if r.mutability.is_some() => self.add(&r.expr),
+                Expr::MethodCall(m) if !OBSERVERS.contains(&m.method.to_string().as_str()) => self.add(&m.receiver),
+                _ => {}
+            }
+            syn::visit::visit_expr(self, e);
+        }
+        fn visit_pat_ident(&mut self, p: &'ast syn::PatIdent) {
+            if p.mutability.is_some() || p.by_ref.is_some() {
+                let n = p.ident.to_string();
+                if !self.0.contains(&n) {
+                    self.0.push(n);
+                }
+            }
+            syn::visit::visit_pat_ident(self, p);
+        }
+    }
+
+    struct Shape<'a> {
+        mutated: &'a [String],
+        /// no control flow, `?`, closure, macro or block inside
+        straight: bool,
+        /// a value that is the same wherever it is evaluated in the function
+        value: bool,
+        mentions_self: bool,
+    }
+    impl<'ast> Visit<'ast> for Shape<'_> {
+        fn visit_expr(&mut self, e: &'ast Expr) {
+            match e {
+                Expr::Try(_) | Expr::Return(_) | Expr::Break(_) | Expr::Continue(_) | Expr::Closure(_) | Expr::Macro(_)
+                | Expr::Block(_) | Expr::If(_) | Expr::Match(_) | Expr::While(_) | Expr::Loop(_) | Expr::ForLoop(_)
+                | Expr::Unsafe(_) | Expr::Await(_) | Expr::Assign(_) | Expr::Let(_) | Expr::Async(_) | Expr::Yield(_) => {
+                    self.straight = false;
+                    self.value = false;
+                }
+                Expr::Path(p) => {
+                    if p.path.is_ident("self") {
+                        self.mentions_self = true;
+                        self.value = false;
+                    }
+                    if let Some(i) = p.path.get_ident() {
+                        if self.mutated.contains(&i.to_string()) {
+                            self.value = false;
+                        }
+                    }
+                }
+                Expr::MethodCall(m) => {
+                    // observers of a variable that never changes
+                    let plain = matches!(&*m.receiver, Expr::Path(p) if p.path.get_ident().is_some());
+                    if !(plain && ["len", "is_empty", "clone"].contains(&m.method.to_string().as_str()) && m.args.is_empty()) {
+                        self.value = false;
+                    }
+                }
+                Expr::Call(c) => {
+                    // constructor applications only: `Type::IntVar(a, s)`, `Some(x)`
+                    let f = txt(&c.func);
+                    let last = f.rsplit("::").next().unwrap_or("");
+                    if !last.chars().next().is_some_and(|ch| ch.is_ascii_uppercase()) {
+                        self.value = false;
+                    }
+                }
+                Expr::Field(_) | Expr::Index(_) | Expr::Range(_) | Expr::Struct(_) | Expr::Array(_) | Expr::Repeat(_) => self.value = false,
+                Expr::Unary(u) if matches!(u.op, UnOp::Deref(_)) => self.value = false,
+                _ => {}
+            }
+            syn::visit::visit_expr(self, e);
+        }
+    }
+    fn shape<'a>(e: &Expr, mutated: &'a [String]) -> Shape<'a> {
+        let mut s = Shape { mutated, straight: true, value: true, mentions_self: false };
+        s.visit_expr(e);
+        s
+    }
+
+    /// uses of a variable in the statements that follow its `let`
+    struct Uses<'a> {
+        name: &'a syn::Ident,
+        count: usize,
+        /// the name is bound again, or a macro mentions it (its tokens are not expressions)
+        opaque: bool,
+    }
+    impl<'ast> Visit<'ast> for Uses<'_> {
+        fn visit_expr_path(&mut self, p: &'ast syn::ExprPath) {
+            if p.path.is_ident(self.name) {
+                self.count += 1;
+            }
+        }
+        fn visit_pat_ident(&mut self, p: &'ast syn::PatIdent) {
+            if p.ident == *self.name {
+                self.opaque = true;
+            }
+        }
+        fn visit_macro(&mut self, m: &'ast syn::Macro) {
+            let n = self.name.to_string();
+            if m.tokens.to_string().split(|c: char| !(c.is_alphanumeric() || c == '_')).any(|w| w == n) {
+                self.opaque = true;
+            }
+        }
+        fn visit_field_value(&mut self, f: &'ast syn::FieldValue) {
+            // `S { x }` (shorthand) mentions the variable without an expression of its own in the printed text
+            if f.colon_token.is_none() {
+                if let syn::Member::Named(m) = &f.member {
+                    if m == self.name {
+                        self.opaque = true;
+                    }
+                }
+            }
+            syn::visit::visit_field_value(self, f);
+        }
+    }
+
+    fn needs_paren(e: &Expr) -> bool {
+        matches!(e, Expr::Binary(_) | Expr::Unary(_) | Expr::Cast(_) | Expr::Reference(_))
+    }
+
+    struct Subst<'a> {
+        name: &'a syn::Ident,
+        init: &'a Expr,
+    }
+    impl Subst<'_> {
+        fn is_var(&self, e: &Expr) -> bool {
+            matches!(e, Expr::Path(p) if p.path.is_ident(self.name))
+        }
+        fn value(&self) -> Expr {
+            if needs_paren(self.init) {
+                Expr::Paren(syn::ExprParen { attrs: vec![], paren_token: Default::default(), expr: Box::new(self.init.clone()) })
+            } else {
+                self.init.clone()
+            }
+        }
+    }
+    impl VisitMut for Subst<'_> {
+        fn visit_expr_mut(&mut self, e: &mut Expr) {
+            if let Expr::MethodCall(m) = e {
+                if m.method == "clone" && m.args.is_empty() && self.is_var(&m.receiver) {
+                    *e = self.value();
+                    return;
+                }
+            }
+            if self.is_var(e) {
+                *e = self.value();
+                return;
+            }
+            syn::visit_mut::visit_expr_mut(self, e);
+        }
+    }
+
+    fn peel(e: &Expr) -> &Expr {
+        match e {
+            Expr::Paren(p) => peel(&p.expr),
+            Expr::Group(g) => peel(&g.expr),
+            e => e,
+        }
+    }
+
+    fn paren(e: Expr) -> Expr {
+        if needs_paren(&e) {
+            Expr::Paren(syn::ExprParen { attrs: vec![], paren_token: Default::default(), expr: Box::new(e) })
+        } else {
+            e
+        }
+    }
+
+    /// `!e` with the negation pushed inwards
+    fn negate(e: &Expr) -> Expr {
+        match peel(e) {
+            Expr::Unary(u) if matches!(u.op, UnOp::Not(_)) => peel(&u.expr).clone(),
+            Expr::Binary(b) => {
+                let mk = |op: BinOp, l: Expr, r: Expr| Expr::Binary(syn::ExprBinary { attrs: vec![], left: Box::new(l), op, right: Box::new(r) });
+                match b.op {
+                    BinOp::And(_) => mk(BinOp::Or(Default::default()), negate(&b.left), negate(&b.right)),
+                    BinOp::Or(_) => mk(BinOp::And(Default::default()), paren_and(negate(&b.left)), paren_and(negate(&b.right))),
+                    BinOp::Eq(_) => mk(BinOp::Ne(Default::default()), (*b.left).clone(), (*b.right).clone()),
+                    BinOp::Ne(_) => mk(BinOp::Eq(Default::default()), (*b.left).clone(), (*b.right).clone()),
+                    _ => not(e),
+                }
+            }
+            _ => not(e),
+        }
+    }
+    /// an operand of `&&` that is an `||` needs its parentheses
+    fn paren_and(e: Expr) -> Expr {
+        if matches!(&e, Expr::Binary(b) if matches!(b.op, BinOp::Or(_))) { paren(e) } else { e }
+    }
+    fn not(e: &Expr) -> Expr {
+        Expr::Unary(syn::ExprUnary { attrs: vec![], op: UnOp::Not(Default::default()), expr: Box::new(paren(peel(e).clone())) })
+    }
+
+    struct Logic;
+    impl VisitMut for Logic {
+        fn visit_expr_mut(&mut self, e: &mut Expr) {
+            syn::visit_mut::visit_expr_mut(self, e);
+            match e {
+                Expr::Unary(u) if matches!(u.op, UnOp::Not(_)) => {
+                    let inner = peel(&u.expr);
+                    let push = match inner {
+                        Expr::Unary(v) => matches!(v.op, UnOp::Not(_)),
+                        Expr::Binary(b) => matches!(b.op, BinOp::And(_) | BinOp::Or(_) | BinOp::Eq(_) | BinOp::Ne(_)),
+                        _ => false,
+                    };
+                    if push {
+                        *e = negate(inner);
+                    }
+                }
+                Expr::Binary(b) if matches!(b.op, BinOp::Eq(_) | BinOp::Ne(_)) => {
+                    if txt(&b.left) > txt(&b.right) {
+                        std::mem::swap(&mut b.left, &mut b.right);
+                    }
+                }
+                _ => {}
+            }
+        }
+    }
+
+    /// parentheses that only group a whole condition / argument / initialiser
+    struct Parens;
+    fn strip(e: &mut Expr) {
+        while let Expr::Paren(p) = e {
+            *e = (*p.expr).clone();
+        }
+    }
+    impl VisitMut for Parens {
+        fn visit_expr_if_mut(&mut self, i: &mut syn::ExprIf) {
+            strip(&mut i.cond);
+            syn::visit_mut::visit_expr_if_mut(self, i);
+        }
+        fn visit_expr_while_mut(&mut self, i: &mut syn::ExprWhile) {
+            strip(&mut i.cond);
+            syn::visit_mut::visit_expr_while_mut(self, i);
+        }
+        fn visit_expr_match_mut(&mut self, i: &mut syn::ExprMatch) {
+            strip(&mut i.expr);
+            syn::visit_mut::visit_expr_match_mut(self, i);
+        }
+        fn visit_expr_call_mut(&mut self, c: &mut syn::ExprCall) {
+            for a in c.args.iter_mut() {
+                strip(a);
+            }
+            syn::visit_mut::visit_expr_call_mut(self, c);
+        }
+        fn visit_expr_method_call_mut(&mut self, c: &mut syn::ExprMethodCall) {
+            for a in c.args.iter_mut() {
+                strip(a);
+            }
+            syn::visit_mut::visit_expr_method_call_mut(self, c);
+        }
+        fn visit_local_init_mut(&mut self, i: &mut syn::LocalInit) {
+            strip(&mut i.expr);
+            syn::visit_mut::visit_local_init_mut(self, i);
+        }
+        fn visit_expr_assign_mut(&mut self, a: &mut syn::ExprAssign) {
+            strip(&mut a.right);
+            syn::visit_mut::visit_expr_assign_mut(self, a);
+        }
+        fn visit_expr_return_mut(&mut self, r: &mut syn::ExprReturn) {
+            if let Some(x) = &mut r.expr {
+                strip(x);
+            }
+            syn::visit_mut::visit_expr_return_mut(self, r);
+        }
+        fn visit_stmt_mut(&mut self, s: &mut Stmt) {
+            if let Stmt::Expr(e, _) = s {
+                strip(e);
+            }
+            syn::visit_mut::visit_stmt_mut(self, s);
+        }
+        fn visit_expr_paren_mut(&mut self, p: &mut syn::ExprParen) {
+            strip(&mut p.expr);
+            syn::visit_mut::visit_expr_paren_mut(self, p);
+        }
+    }
+
+    struct Inline {
+        mutated: Vec<String>,
+    }
+    impl VisitMut for Inline {
+        fn visit_block_mut(&mut self, b: &mut Block) {
+            syn::visit_mut::visit_block_mut(self, b);
+            let mut i = 0;
+            while i < b.stmts.len() {
+                let Some((name, init)) = simple_let(&b.stmts[i]) else {
+                    i += 1;
+                    continue;
+                };
+                let sh = shape(&init, &self.mutated);
+                let mut u = Uses { name: &name, count: 0, opaque: false };
+                for s in &b.stmts[i + 1..] {
+                    u.visit_stmt(s);
+                }
+                let next_only = {
+                    let mut n = Uses { name: &name, count: 0, opaque: false };
+                    if let Some(s) = b.stmts.get(i + 1) {
+                        n.visit_stmt(s);
+                    }
+                    n.count == 1 && u.count == 1
+                };
+                let ok = !u.opaque && u.count > 0 && sh.straight && (sh.value || (next_only && !sh.mentions_self));
+                if !ok {
+                    i += 1;
+                    continue;
+                }
+                let mut sub = Subst { name: &name, init: &init };
+                for s in b.stmts[i + 1..].iter_mut() {
+                    sub.visit_stmt_mut(s);
+                }
+                b.stmts.remove(i);
+            }
+        }
+    }
+
+    pub fn block(b: &Block) -> Block {
+        let mut b = b.clone();
+        let mut m = Mutated::default();
+        m.visit_block(&b);
+        Inline { mutated: m.0 }.visit_block_mut(&mut b);
+        Logic.visit_block_mut(&mut b);
+        Parens.visit_block_mut(&mut b);
+        b
+    }
+
+    pub fn expr(e: &Expr) -> Expr {
+        let mut e = e.clone();
+        let mut m = Mutated::default();
+        m.visit_expr(&e);
+        Inline { mutated: m.0 }.visit_expr_mut(&mut e);
+        Logic.visit_expr_mut(&mut e);
+        Parens.visit_expr_mut(&mut e);
+        e
+    }
+
+    /// the binders of an arm (pattern and body: `let`s, nested patterns) renamed `__l0`, `__l1`, … in
+    /// order of appearance, lower-case identifiers only (a capitalised identifier pattern is a constant)
+    pub fn alpha_arm(arm: &syn::Arm) -> String {
+        struct Binders(Vec<String>);
+        impl<'ast> Visit<'ast> for Binders {
+            fn visit_pat_ident(&mut self, p: &'ast syn::PatIdent) {
+                let n = p.ident.to_string();
+                if n.chars().next().is_some_and(|c| c.is_ascii_lowercase() || c == '_') && !self.0.contains(&n) {
+                    self.0.push(n);
+                }
+                syn::visit::visit_pat_ident(self, p);
+            }
+        }
+        struct Rename<'a>(&'a [String]);
+        impl Rename<'_> {
+            fn of(&self, i: &syn::Ident) -> Option<syn::Ident> {
+                self.0.iter().position(|n| i == n).map(|k| syn::Ident::new(&format!("__l{k}"), i.span()))
+            }
+        }
+        impl VisitMut for Rename<'_> {
+            fn visit_pat_ident_mut(&mut self, p: &mut syn::PatIdent) {
+                if let Some(n) = self.of(&p.ident) {
+                    p.ident = n;
+                }
+                syn::visit_mut::visit_pat_ident_mut(self, p);
+            }
+            fn visit_expr_path_mut(&mut self, p: &mut syn::ExprPath) {
+                if p.qself.is_none() && p.path.segments.len() == 1 && p.path.leading_colon.is_none() {
+                    if let Some(n) = self.of(&p.path.segments[0].ident) {
+                        p.path.segments[0].ident = n;
+                    }
+                }
+            }
+        }
+        let mut arm = arm.clone();
+        *arm.body = expr(&arm.body);
+        let mut b = Binders(vec![]);
+        b.visit_arm(&arm);
+        Rename(&b.0).visit_arm_mut(&mut arm);
+        txt(&arm)
+    }
+
+    pub fn text(b: &Block) -> String {
+        txt(&block(b))
+    }
+}
+
 fn c07facts(repo: &Path) -> Result<String, String> {
     let expr_rs = find::parse(repo, "src/typechecker/expr.rs")?;
     let mod_rs = find::parse(repo, "src/typechecker/mod.rs")?;
@@ -285,8 +798,11 @@ fn c07facts(repo: &Path) -> Result<String, String> {
     out.push_str(&format!("/-- `IntVar(_, MustBeSigned::Yes)` × `Name`: the named type must satisfy … -/\ndef intVarYesPred : Pred := {}\n/-- `IntVar(_, MustBeSigned::No)` × `Name` -/\ndef intVarNoPred : Pred := {}\ndef intVarRejectsArgs : Bool := {}\n", pred_name(&yes)?, pred_name(&no)?, b(int_arm.contains(args_test))));
     out.push_str(&format!("def floatVarPred : Pred := {}\ndef floatVarRejectsArgs : Bool := {}\n", pred_name(&fpred)?, b(float_arm.contains(args_test))));
     let uints = find::func(&mod_rs, "unify_intvars", Some("TypeChecker"))?;
-    let ui = norm(&uints.block);
-    let yes_priority = ui.contains("ifa_signed==MustBeSigned::Yes&&b_signed==MustBeSigned::No{self.type_info.unionfind.set(b,Type::IntVar(a,a_signed));Type::IntVar(a,a_signed)}else{self.type_info.unionfind.set(a,Type::IntVar(b,b_signed));Type::IntVar(b,b_signed)}");
+    let ui = canon::text(&uints.block);
+    if std::env::var("C07_EXTRACT_DEBUG").is_ok() {
+        eprintln!("unify_intvars: {ui}");
+    }
+    let yes_priority = ui.contains("ifMustBeSigned::Yes==a_signed&&MustBeSigned::No==b_signed{self.type_info.unionfind.set(b,Type::IntVar(a,a_signed));Type::IntVar(a,a_signed)}else{self.type_info.unionfind.set(a,Type::IntVar(b,b_signed));Type::IntVar(b,b_signed)}");
     out.push_str(&format!("/-- `unify_intvars`: `Yes` has priority over `No` (b ↦ a exactly when a is Yes and b is No, else a ↦ b) -/\ndef intVarsYesPriority : Bool := {}\n", b(yes_priority)));
     out.push_str(&format!("/-- number of arms of `match (a, b)` -/\ndef unifyArmCount : Nat := {}\n", pats.len()));
     let unify_fn = find::func(&mod_rs, "unify", Some("TypeChecker"))?;
@@ -306,9 +822,10 @@ fn c07facts(repo: &Path) -> Result<String, String> {
 
     // ---- insert_declaration and its callers
     let ins = find::func(&scope_rs, "insert_declaration", Some("ScopeGraph"))?;
-    let ib = norm(&ins.block);
-    let occupied = ib.contains("Entry::Occupied(entry)=>{letold=entry.into_mut();ifupdate_if(&old.kind){old.kind=kind;Ok(old)}else{Err(old.id)}}");
-    let vacant = ib.contains("Entry::Vacant(entry)=>{");
+    // (the arms are looked at one by one, binders alpha-renamed: their order and the names of the locals do not matter)
+    let ins_arms: Vec<String> = find::matches_on(&ins.block, "self.declarations.entry(name)").iter().flat_map(|m| m.arms.iter().map(canon::alpha_arm).collect::<Vec<_>>()).collect();
+    let occupied = ins_arms.iter().any(|a| a == "Entry::Occupied(__l0)=>{let__l1=__l0.into_mut();ifupdate_if(&__l1.kind){__l1.kind=kind;Ok(__l1)}else{Err(__l1.id)}}");
+    let vacant = ins_arms.iter().any(|a| a.starts_with("Entry::Vacant(__l0)=>{"));
     out.push_str(&format!("/-- `insert_declaration`: an occupied entry is replaced only if `update_if(old)`, else `Err` -/\ndef insertOccupiedAsksUpdateIf : Bool := {}\ndef insertVacantInserts : Bool := {}\n", b(occupied), b(vacant)));
     let never = |name: &str| -> Result<bool, String> {
         let f = find::func(&scope_rs, name, Some("ScopeGraph"))?;
@@ -325,6 +842,40 @@ fn c07facts(repo: &Path) -> Result<String, String> {
         b(stub_only("insert_function", "matches!(kind,DeclarationKind::Function(None))")?),
         b(stub_only("insert_method", "matches!(kind,DeclarationKind::Method(None))")?),
     ));
+    // ---- resolve_name / resolve_module_part_of_path: which names a path segment can reach
+    {
+        use syn::visit::Visit;
+        let f = find::func(&scope_rs, "resolve_name", Some("ScopeGraph"))?;
+        let mut c = Consults { file: &scope_rs, depth: 0, out: vec![] };
+        c.visit_block(&f.block);
+        let mut steps = c.out;
+        // `if recurse && let Some(x) = …imports.get(..)`: the gate written positively guards the imports
+        if !steps.contains(&1) && norm(&f.block).contains("recurse&&") {
+            if let Some(pos) = steps.iter().position(|x| *x == 2) {
+                steps.insert(pos, 1);
+            }
+        }
+        for (code, what) in [(0u8, "declarations"), (1, "the `recurse` gate"), (2, "imports"), (3, "parent scope")] {
+            if !steps.contains(&code) {
+                return Err(format!("resolve_name: {what} not consulted ({steps:?})"));
+            }
+        }
+        let f = find::func(&expr_rs, "resolve_module_part_of_path", None)?;
+        let mut r = RecurseValues(vec![]);
+        r.visit_block(&f.block);
+        let mut vals = Vec::new();
+        for v in &r.0 {
+            match v.as_str() {
+                "true" | "false" => vals.push(v.clone()),
+                other => return Err(format!("resolve_module_part_of_path: `recurse` is given `{other}`")),
+            }
+        }
+        out.push_str(&format!(
+            "\n/-- `ScopeGraph::resolve_name` (helpers on `self` followed): what one iteration of its loop consults, in source order — 0 the scope's declarations, 1 the exit `if !recurse`, 2 the scope's imports (followed by 0: the import's target), 3 the parent scope -/\ndef resolveNameSteps : List Nat := [{}]\n/-- `resolve_module_part_of_path`: the values given to `recurse`, in source order (initially; after a leading `super`; after every segment) -/\ndef pathRecurseValues : List Bool := [{}]\n",
+            steps.iter().map(|x| x.to_string()).collect::<Vec<_>>().join(", "),
+            vals.join(", ")
+        ));
+    }
     out.push_str("\nend RotoV.Gen.C07Facts\n");
     Ok(out)
 }
@@ -1116,7 +1667,8 @@ mod arms {
 
     /// the events of an arm body (its pattern's variables are free, like function parameters)
     fn arm_events(body: &Expr) -> Vec<String> {
-        let mut body = body.clone();
+        // (canonical form first: harmless spellings — a named subexpression, De Morgan, swapped operands of `==` — give the same skeleton)
+        let mut body = super::canon::expr(body);
         let mut r = Renamer::new();
         r.visit_expr_mut(&mut body);
         let mut w = Walker { ev: vec![], id_locals: &r.id_locals, elide: None };
@@ -1126,7 +1678,7 @@ mod arms {
 
     /// the events of a whole function body
     fn fn_events(block: &syn::Block, elide: Option<&str>) -> Vec<String> {
-        let mut block = block.clone();
+        let mut block = super::canon::block(block);
         let mut r = Renamer::new();
         r.visit_block_mut(&mut block);
         let mut w = Walker { ev: vec![], id_locals: &r.id_locals, elide };
